@@ -525,15 +525,29 @@ def parse_statement(s):
 _FN_HDR = re.compile(r'^fn (.*)$')
 
 
+_SIMPLE_CONST = re.compile(r'^const ([\w:<>, ]+): [^=]+ = const (.+);$')
+
+
+class FnList(list):
+    """the functions of a dump plus its literal constant items {last path segment: literal text}"""
+    def __init__(self, *a):
+        super().__init__(*a)
+        self.consts = {}
+
+
 def parse_mir(text):
     """returns list[Function] (bodies parsed lazily on demand via Function.blocks property is overkill: parse eagerly
     but tolerate ParseError per function by recording it)."""
     lines = text.split('\n')
-    funcs = []
+    funcs = FnList()
     i = 0
     n = len(lines)
     while i < n:
         ln = lines[i]
+        mc = _SIMPLE_CONST.match(ln)
+        if mc:
+            # `const NAME: usize = const 32_usize;` (a literal constant item, e.g. a `const` inside a function)
+            funcs.consts[mc.group(1).split('::')[-1]] = mc.group(2).strip()
         if ln.startswith('fn ') and ln.rstrip().endswith('{'):
             start = i
             j = i + 1
